@@ -135,7 +135,10 @@ def mutate_adversarial(rng, stages, allocs, stride):
         # the buffer produced by stage 0 is consumed by stage 2 only
         b = stages[0][0]["outs"][0]
         if b[0] == "F" and stages[1][0]["ins"][0] == b:
-            stages[1][0]["ins"][0] = ("T", 2, stride) if ("T", 2, stride) not in [x for o in stages[1] for x in o["ins"] + o["outs"]] else ("F", 2)
+            if stages[1][0]["kind"] == "copy":
+                stages[1][0]["ins"][0] = ("F", 3)  # a tile-sized argument buffer (memref.copy needs equal shapes)
+            else:
+                stages[1][0]["ins"][0] = ("T", 2, stride) if ("T", 2, stride) not in [x for o in stages[1] for x in o["ins"] + o["outs"]] else ("F", 2)
             tgt = stages[2][0]
             if b not in tgt["ins"] + tgt["outs"] and tgt["kind"] == "generic":
                 tgt["ins"] = tgt["ins"] + [b]
